@@ -17,7 +17,10 @@ Interfaces: has_*_marker(line) -> bool for each marker type
 Implementation: String-based pattern detection with case-insensitive matching
 """
 
+from functools import lru_cache
 
+
+@lru_cache(maxsize=256)
 def has_ignore_directive_marker(line: str) -> bool:
     """Check if line contains a file-level ignore directive marker.
 
@@ -39,6 +42,7 @@ def has_ignore_directive_marker(line: str) -> bool:
     )
 
 
+@lru_cache(maxsize=256)
 def has_line_ignore_marker(code: str) -> bool:
     """Check if code line has an inline ignore marker.
 
@@ -57,6 +61,7 @@ def has_line_ignore_marker(code: str) -> bool:
     )
 
 
+@lru_cache(maxsize=256)
 def has_ignore_next_line_marker(line: str) -> bool:
     """Check if line has ignore-next-line marker.
 
@@ -78,6 +83,7 @@ def has_ignore_next_line_marker(line: str) -> bool:
     )
 
 
+@lru_cache(maxsize=256)
 def has_ignore_start_marker(line: str) -> bool:
     """Check if line has ignore-start comment marker.
 
@@ -96,6 +102,7 @@ def has_ignore_start_marker(line: str) -> bool:
     return "ignore-start" in stripped and ("thailint:" in stripped or "design-lint:" in stripped)
 
 
+@lru_cache(maxsize=256)
 def has_ignore_end_marker(line: str) -> bool:
     """Check if line has ignore-end comment marker.
 
